@@ -249,7 +249,8 @@ pub fn opt_space(backend: &str) -> Space<Opts> {
         d = d.v(a, move |o: &mut Opts| o.alg = a);
     }
     dims.push(d);
-    let atoms = ["host.example.com", "192.0.2.7", "2001:db8::1", "caf\u{e9}.example", "::1", "::ffff:10.0.0.1", "localhost", "*.wild.example"];
+    // (first five positions are used for the pairs below; appended: IP literals in their longest spellings)
+    let atoms = ["host.example.com", "192.0.2.7", "2001:db8::1", "caf\u{e9}.example", "::1", "::ffff:10.0.0.1", "localhost", "*.wild.example", "2001:0db8:0000:0000:0000:0000:0000:0001", "0000:0000:0000:0000:0000:ffff:192.168.100.100", "0000:0000:0000:0000:0000:0000:255.255.255.255", "255.255.255.255", "fe80:0000:0000:0000:0202:b3ff:fe1e:8329"];
     let mut d = Dim::new("sans");
     for a in atoms {
         d = d.v(format!("[{}]", a), move |o: &mut Opts| o.sans = vec![a.to_string()]);
@@ -271,7 +272,10 @@ pub fn opt_space(backend: &str) -> Space<Opts> {
             .v("custom", |o: &mut Opts| o.names = Some(("leaf".into(), "authority".into())))
             .v("spaces and dots", |o: &mut Opts| o.names = Some(("my cert.v2".into(), "my ca.v2".into())))
             .v("common dotted prefix", |o: &mut Opts| o.names = Some(("site.leaf".into(), "site.ca".into())))
-            .v("hostname-like", |o: &mut Opts| o.names = Some(("www.example.com".into(), "ca.example.com".into()))),
+            .v("hostname-like", |o: &mut Opts| o.names = Some(("www.example.com".into(), "ca.example.com".into())))
+            .v("differing in case only", |o: &mut Opts| o.names = Some(("Server".into(), "server".into())))
+            .v("upper-case twin with a dot", |o: &mut Opts| o.names = Some(("x.Key".into(), "X.key".into())))
+            .v("one a prefix of the other", |o: &mut Opts| o.names = Some(("cert".into(), "cert2".into()))),
     );
     dims.push(Dim::new("output_dir").v("nested non-existing", |o: &mut Opts| o.nested_dir = true));
     dims.push(Dim::new("history").v("previous run with --ecdsa-p384", |o: &mut Opts| o.previous_run = Some("--ecdsa-p384")).v("previous run with --ed25519", |o: &mut Opts| o.previous_run = Some("--ed25519")));
